@@ -157,9 +157,10 @@ CHECKS = {
     "C06": {
         "groups": [
             {"pkg": "Havoc/cmd/server", "with": SRV_WITH, "entries": ["H_c06_first", "H_c06_window"], "no_native_witness": True, "no_native_replay": True},
+            {"pkg": "Havoc/pkg/service", "entries": ["H_c06_service"], "no_native_witness": True, "no_native_replay": True},
         ],
-        "bounds": "first message = arbitrary Package (event/sub-event any int32; Head.User one of two operators / unknown / empty; Body.Info absent or with User/Password each absent, right string, other string, number, bool, null, object); profile with and without Operators block; one follow-up message.",
-        "outside": "gorilla/websocket, TLS, JSON decoding itself (modelled as: yields an arbitrary well-typed Package), the service endpoint (pkg/service) in this revision",
+        "bounds": "first message = arbitrary Package (event/sub-event any int32; Head.User one of two operators / unknown / empty; Body.Info absent or with User/Password each absent, right string, other string, number, bool, null, object); profile with and without Operators block; one follow-up message; the digest of another operator's password. Service endpoint: first message undecodable or decoded with any of five request types and the right password / 0..2 arbitrary characters / the right password plus one character, 0..2 follow-up messages.",
+        "outside": "gorilla/websocket, TLS, JSON decoding itself (modelled as: yields an arbitrary well-typed Package), what an authenticated service connection may then register (C16)",
         "min_completed": 3,
     },
     "C09": {
@@ -231,7 +232,7 @@ LEVELS = {
     "C11": {"text": "Bounded symbolic execution of the real event log / replay / fan-out / SendEvent code with the websocket write as a fault-injecting recorder; the fault sequence is a symbolic variable, and a mutex left held after any send is reported by the engine's lock model.",
             "note": "websocket, JSON encoder and DB are stubs; single-threaded (interleavings of concurrent broadcasters are outside)."},
     "C06": {"text": "Bounded symbolic execution of the real handleRequest/ClientAuthenticate/EventBroadcast decision logic over an arbitrary first Package (the image of json.Unmarshal), with SHA3 as an injective digest.",
-            "note": "The JSON decoder is modelled by its result type; sockets and timing are outside; service endpoint not covered in this revision."},
+            "note": "The JSON decoder is modelled by its result type; sockets and timing are outside; the service endpoint's handshake (authenticate/handleConnection/routine) is executed with the websocket as a script."},
     "C09": {"text": "Bounded symbolic execution of the real link bookkeeping (cmd/server Died/UnlinkFromAll/LinkAdd/LinkRemove, TaskDispatch SMB connect/disconnect) from every forest over a 3-agent universe; the forest invariant relating parent pointers, link lists and link rows is asserted after one event (inductive step).",
             "note": "Database = relational model of the four SQL statements in pkg/db/links.go; websocket/JSON stubbed."},
     "C02": {"text": "Bounded symbolic execution of the real BuildPayloadMessage and of TaskPrepare -> queue -> check-in reply for a stated subset of commands against a reference reader that mirrors Parser.c/Command.c; parameter digits, ids, argument values and types are symbolic; encryption is an uninterpreted key stream so a body sent in clear is a counterexample.",
